@@ -219,7 +219,7 @@ def merger_agg(ctx):
     want = spec(ctx.repo, '{col: "sum" for col in cols}', {'cols': want_cols}, 'cooler._reduce')
     ctx.eq(R, 'default-sum', agg, want, ctx.where(fi), 'every requested column is aggregated, by sum unless overridden')
     ups = [e for e in calls(fi, method='update') if receiver(e) == agg or T.show(receiver(e)) == 'self.agg']
-    ctx.check(bool(ups) and ups[0].args == (V('agg'),) and any(c == T.cmp('is not', V('agg'), T.NONE) and p for c, p in ups[0].guards),
+    ctx.check(bool(ups) and ups[0].args == (V('agg'),) and ups[0].under(T.cmp('is not', V('agg'), T.NONE)),
               R, 'override', ctx.where(fi), found=[T.show(e.term) for e in ups], expected='self.agg.update(agg) when agg is given')
     ctx.eq(R, 'coolers', st.get('coolers'), T.call(G('list'), (V('coolers'),)), ctx.where(fi))
     ctx.eq(R, 'mergebuf', st.get('mergebuf'), V('mergebuf'), ctx.where(fi))
